@@ -53,6 +53,14 @@ def loop_rate(s, k):
     return tot
 
 
+# module-level numbers that happen to be called like parameters of the rate laws below (a script that keeps its
+# default values next to its functions): inside a function the ARGUMENT of that name is meant, never this number
+cap = 9.9
+thr = 7.7
+vmax = 5.5
+km = 3.3
+
+
 def capped(s, vmax, cap):
     """A user-written rate law with a one-armed if that rebinds a name the other path still reads."""
     v = vmax * s
